@@ -43,3 +43,12 @@ Definition degen_ok (pats : list pattern) (hexes prisms : list (Z * list Z))
   end.
 Definition positive_ok (perm : list nat) (rows : list ((Z * list Z) * Q)) (impl : list (Z * list Z)) : bool :=
   opt_eqb rows_eqb (make_positive QOps perm rows) (Some impl).
+
+Fixpoint blocks_eqb (a b : list (string * list (Z * list Z))) : bool :=
+  match a, b with
+  | [], [] => true
+  | (t, r) :: a', (t', r') :: b' => String.eqb t t' && rows_eqb r r' && blocks_eqb a' b'
+  | _, _ => false
+  end.
+Definition others_ok (src impl : list (string * list (Z * list Z))) : bool :=
+  blocks_eqb (resolve_degeneracy_others src) impl.
